@@ -197,7 +197,7 @@ impl Check for C07 {
         "C07"
     }
     fn units(&self, tier: Tier, _seed: u64) -> u64 {
-        tier.pick(32, 320)
+        tier.pick(64, 480)
     }
     fn run_unit(&self, unit: u64, ctx: &mut Ctx) {
         // per unit: random histories, and (every unit) all 2-step histories over a 6-variant pool of one base
@@ -246,8 +246,8 @@ impl Check for C07 {
         "histories over generated 2-4 file workspaces (root including 1-3 files). Operations: Edit(file, text') = write to the file system + set_file_content + set_root_file(current root) - the edit protocol the server uses; SwitchRoot(file) = that file's text is (re)sent and it becomes the root; Remove(included file). text' is drawn from a per-file pool: the original, a version shifted by two lines (include statements move without changing), one include removed / retargeted in place / two reordered / an include added at the top or in the middle, three random syntactic mutations, a completely different program, the empty text. RANDOM: histories of 8 (thorough 12) operations. EXHAUSTIVE: per unit all 36 two-step histories over a 6-operation pool of one base. After EVERY step the full query sweep of the long-lived host is compared with the sweep of a fresh AnalysisHost + fresh file system holding only the final texts and root (FileIds mapped to paths, hash-ordered collections sorted, nothing else normalised). non-trivial = every history; distinct by digest of base texts + operation sequence".into()
     }
     fn floors(&self, tier: Tier) -> Vec<(&'static str, u64)> {
-        let n = tier.pick(150, 8000);
-        vec![("random_histories", n), ("exhaustive_histories", tier.pick(700, 7_000)), ("op:switch-root", n), ("op:remove-include", n / 8), ("op:retarget-include", n / 8), ("op:add-include", n / 8), ("op:shift-includes", n / 8), ("op:mutate", n), ("op:remove-file", n / 4), ("queries_compared", n * 1000)]
+        let n = tier.pick(300, 12_000);
+        vec![("random_histories", n), ("exhaustive_histories", tier.pick(1400, 10_000)), ("op:switch-root", n), ("op:remove-include", n / 8), ("op:retarget-include", n / 8), ("op:add-include", n / 8), ("op:shift-includes", n / 8), ("op:mutate", n), ("op:remove-file", n / 4), ("queries_compared", n * 1000)]
     }
     fn exhaustive(&self, _tier: Tier) -> Option<String> {
         Some("sub-space: all 36 two-step histories over a 6-operation pool, for one base workspace per unit".into())
